@@ -1,11 +1,15 @@
 """C12 configuration (see lib/props.py for the format)."""
 
 PROP = dict(
-    harnesses={"c12_parser": dict(sources=["harness/c12_parser.cpp"])},
+    harnesses={"c12_parser": dict(sources=["harness/c12_parser.cpp"]),
+               "c12_server": dict(sources=["harness/c12_server.cpp"])},
     legs=[
         dict(name="segment", harness="c12_parser", flavour="asan", mode="segment", quick=3000, thorough=200000),
         dict(name="bigsplit", harness="c12_parser", flavour="asan", mode="bigsplit", quick=300, thorough=8000),
         dict(name="hostile", harness="c12_parser", flavour="asan", mode="hostile", quick=60000, thorough=4000000),
+        dict(name="pipeline", harness="c12_server", flavour="asan", mode="pipeline", quick=3000, thorough=100000),
+        dict(name="order", harness="c12_server", flavour="asan", mode="order", quick=4280, thorough=4280, scalable=False, exhaustive=True),
+        dict(name="live", harness="c12_server", flavour="asan", mode="live", quick=3000, thorough=100000),
     ],
     rule="tbd",
     assumptions=[],
